@@ -12,7 +12,7 @@ mod alloc;
 mod calls;
 mod sink;
 
-use calls::{Call, FuncEntry};
+use calls::{Call, Tables};
 use serde_json::{json, Value};
 use simcore::rng::{tag, Rng};
 use simcore::{EXIT_HARNESS, EXIT_OK, EXIT_VIOLATION};
@@ -198,7 +198,7 @@ struct PassResult {
     sink_fired: bool,
 }
 
-fn run_pass(call: &Call, funcs: &[FuncEntry], vals: Option<&calls::Vals>, pass: &Pass) -> PassResult {
+fn run_pass(call: &Call, funcs: &Tables, vals: Option<&calls::Vals>, pass: &Pass) -> PassResult {
     set_clock_mode(pass.clock);
     let mut sink = FaultySink::new(pass.sink_fail_at, pass.sink_capacity, pass.then_refuse_alloc);
     let r = std::panic::catch_unwind(std::panic::AssertUnwindSafe(|| {
@@ -369,7 +369,7 @@ fn probe_call(call: &Call, st: &mut WStats) {
 }
 
 fn worker(build: &str, seed: u64, n_calls: u64, index: u64, of: u64, trace: bool, only: Option<u64>, from: u64, until: u64) -> i32 {
-    let funcs = calls::funcs();
+    let funcs = Tables::new();
     install_clock();
     let mut st = WStats::default();
     let mut idx = index;
@@ -387,72 +387,93 @@ fn worker(build: &str, seed: u64, n_calls: u64, index: u64, of: u64, trace: bool
         let mut rng = Rng::for_run(seed, tag("C03-call"), idx);
         let call = calls::gen_call(&mut rng, &funcs);
         let vals = match &call {
-            Call::Func { args, .. } => args.vals(),
+            Call::Func { args, .. } | Call::Chain { args, .. } => args.vals(),
             _ => None,
         };
         st.calls += 1;
         *st.by_func.entry(call.func_id()).or_default() += 1;
         probe_call(&call, &mut st);
-        let mut passes = vec![Pass::CONTROL];
-        let mut pi = 0;
-        let mut call_hash = simcore::Fnv::new();
-        while pi < passes.len() {
-            let pass = passes[pi];
-            if trace {
-                let _ = writeln!(stderr.lock(), "BEGIN {} {}", idx, pi);
-            }
-            let r = run_pass(&call, &funcs, vals.as_ref(), &pass);
-            st.passes += 1;
-            call_hash.write(r.outcome.as_bytes());
-            call_hash.write_u64(r.writes as u64);
-            call_hash.write_u64(r.allocs);
-            *st.outcomes.entry(r.outcome).or_default() += 1;
-            if pi == 0 {
-                if r.writes == 0 && r.allocs == 0 && r.clock_reads == 0 {
-                    st.seamless_calls += 1;
-                }
-                if r.writes > 0 {
-                    st.calls_with_sink += 1;
-                }
-                if r.allocs > 0 {
-                    st.calls_with_alloc += 1;
-                }
-                if r.clock_reads > 0 {
-                    st.calls_with_clock += 1;
-                }
-                if !r.panicked {
-                    passes.extend(enumerate_passes(r.writes, r.bytes, r.allocs, r.clock_reads, &mut rng));
-                }
-                if idx < 40 && (r.writes > 0 || r.allocs > 0) {
-                    st.samples.push(json!({"call_index": idx, "call": call.describe(), "control_pass": {"outcome": r.outcome, "sink_writes": r.writes, "sink_bytes": r.bytes, "allocations": r.allocs, "clock_readings": r.clock_reads}, "fault_passes_enumerated": passes.len() - 1}));
-                }
-            } else {
-                let kind = pass.kind();
-                *st.configured.entry(kind).or_default() += 1;
-                let fired = r.sink_fired || r.refused > 0 || matches!(pass.clock, ClockMode::Extreme(_) | ClockMode::Ticking) && r.clock_reads > 0;
-                if fired {
-                    *st.fired.entry(kind).or_default() += 1;
-                    let mut h = simcore::Fnv::new();
-                    h.write(call.func_id().as_bytes());
-                    h.write(build.as_bytes());
-                    h.write(kind.as_bytes());
-                    h.write_u64(pass.position().min(80));
-                    h.write(r.outcome.as_bytes());
-                    st.distinct.insert(h.finish());
-                }
-            }
-            if r.panicked {
-                if st.violations.len() < 5 {
-                    st.violations.push(json!({
-                        "index": idx, "pass_no": pi, "build": build, "class": "panic",
-                        "panic": r.panic_msg, "call": call.to_json(), "pass": pass.to_json(), "describe": call.describe(),
-                    }));
-                }
-                break;
-            }
-            pi += 1;
+        // One call in eight runs on a thread of its own: whatever the library
+        // keeps per thread is then in its first-use state for that call.
+        let fresh_thread = rng.chance(1, 8);
+        if fresh_thread {
+            *st.probes.entry("call_executed_on_a_fresh_thread").or_default() += 1;
         }
-        st.hash = st.hash.wrapping_add(simcore::pool::batch_mix(idx, call_hash.finish()));
+        let mut body = || -> u64 {
+            let mut passes = vec![Pass::CONTROL];
+            let mut pi = 0;
+            let mut call_hash = simcore::Fnv::new();
+            while pi < passes.len() {
+                let pass = passes[pi];
+                if trace {
+                    let _ = writeln!(stderr.lock(), "BEGIN {} {}", idx, pi);
+                }
+                let r = run_pass(&call, &funcs, vals.as_ref(), &pass);
+                st.passes += 1;
+                call_hash.write(r.outcome.as_bytes());
+                call_hash.write_u64(r.writes as u64);
+                call_hash.write_u64(r.allocs);
+                *st.outcomes.entry(r.outcome).or_default() += 1;
+                if pi == 0 {
+                    if r.writes == 0 && r.allocs == 0 && r.clock_reads == 0 {
+                        st.seamless_calls += 1;
+                    }
+                    if r.writes > 0 {
+                        st.calls_with_sink += 1;
+                    }
+                    if r.allocs > 0 {
+                        st.calls_with_alloc += 1;
+                    }
+                    if r.clock_reads > 0 {
+                        st.calls_with_clock += 1;
+                    }
+                    if !r.panicked {
+                        passes.extend(enumerate_passes(r.writes, r.bytes, r.allocs, r.clock_reads, &mut rng));
+                    }
+                    if idx < 40 && (r.writes > 0 || r.allocs > 0) {
+                        st.samples.push(json!({"call_index": idx, "call": call.describe(), "control_pass": {"outcome": r.outcome, "sink_writes": r.writes, "sink_bytes": r.bytes, "allocations": r.allocs, "clock_readings": r.clock_reads}, "fault_passes_enumerated": passes.len() - 1}));
+                    }
+                } else {
+                    let kind = pass.kind();
+                    *st.configured.entry(kind).or_default() += 1;
+                    let fired = r.sink_fired || r.refused > 0 || matches!(pass.clock, ClockMode::Extreme(_) | ClockMode::Ticking) && r.clock_reads > 0;
+                    if fired {
+                        *st.fired.entry(kind).or_default() += 1;
+                        let mut h = simcore::Fnv::new();
+                        h.write(call.func_id().as_bytes());
+                        h.write(build.as_bytes());
+                        h.write(kind.as_bytes());
+                        h.write_u64(pass.position().min(80));
+                        h.write(r.outcome.as_bytes());
+                        st.distinct.insert(h.finish());
+                    }
+                }
+                if r.panicked {
+                    if st.violations.len() < 5 {
+                        st.violations.push(json!({
+                            "index": idx, "pass_no": pi, "build": build, "class": "panic",
+                            "panic": r.panic_msg, "call": call.to_json(), "pass": pass.to_json(), "describe": call.describe(),
+                        }));
+                    }
+                    return call_hash.finish();
+                }
+                pi += 1;
+            }
+            call_hash.finish()
+        };
+        let call_hash_value = if fresh_thread {
+            std::thread::scope(|s| {
+                s.spawn(|| {
+                    install_clock();
+                    body()
+                })
+                .join()
+                .expect("harness thread")
+            })
+        } else {
+            body()
+        };
+        st.hash = st.hash.wrapping_add(simcore::pool::batch_mix(idx, call_hash_value));
         idx += of;
     }
     let out = json!({
@@ -484,10 +505,10 @@ fn exec_one(path: &str) -> i32 {
         }
     };
     let pass = Pass::from_json(&v["pass"]);
-    let funcs = calls::funcs();
+    let funcs = Tables::new();
     install_clock();
     let vals = match &call {
-        Call::Func { args, .. } => args.vals(),
+        Call::Func { args, .. } | Call::Chain { args, .. } => args.vals(),
         _ => None,
     };
     let r = run_pass(&call, &funcs, vals.as_ref(), &pass);
@@ -699,6 +720,10 @@ fn minimise(build: &str, call: Call, pass: Pass, class: &str, scratch: &std::pat
             let t = shrink_str(&text, &mut |s| fails(&Call::Parse { ty, text: s.to_string(), pic: p.clone(), via_formatter: via }, &pass));
             call = Call::Parse { ty, text: t, pic: p, via_formatter: via };
         }
+        Call::Chain { producer, args, pic, display } => {
+            let p = shrink_str(&pic, &mut |s| fails(&Call::Chain { producer: producer.clone(), args: args.clone(), pic: s.to_string(), display }, &pass));
+            call = Call::Chain { producer, args, pic: p, display };
+        }
         Call::Format { ty, raw, pic, display } => {
             let p = shrink_str(&pic, &mut |s| fails(&Call::Format { ty, raw, pic: s.to_string(), display }, &pass));
             let mut r = raw;
@@ -827,7 +852,7 @@ fn coordinator(tier: &str, calls_override: Option<u64>, out: &std::path::Path) -
                 match traced {
                     Ok(Some((idx, pno))) => {
                         // regenerate the call and the pass list deterministically
-                        let funcs = calls::funcs();
+                        let funcs = Tables::new();
                         let mut rng = Rng::for_run(seed, tag("C03-call"), idx);
                         let call = calls::gen_call(&mut rng, &funcs);
                         match locate_pass(build, seed, n_calls, idx, pno, &scratch) {
@@ -1027,7 +1052,7 @@ fn collect_trace(child: std::process::Child) -> Option<(u64, u64)> {
 fn locate_pass(build: &str, seed: u64, n_calls: u64, idx: u64, pno: u64, scratch: &std::path::Path) -> Option<(Pass, String)> {
     // The pass list depends on the control pass; recompute it here in-process
     // (the control pass itself did not crash, or pno would be 0).
-    let funcs = calls::funcs();
+    let funcs = Tables::new();
     install_clock();
     let mut rng = Rng::for_run(seed, tag("C03-call"), idx);
     let call = calls::gen_call(&mut rng, &funcs);
@@ -1057,14 +1082,15 @@ fn locate_pass(build: &str, seed: u64, n_calls: u64, idx: u64, pno: u64, scratch
 }
 
 fn list_passes(seed: u64, idx: u64) -> i32 {
-    let funcs = calls::funcs();
+    let funcs = Tables::new();
     install_clock();
     let mut rng = Rng::for_run(seed, tag("C03-call"), idx);
     let call = calls::gen_call(&mut rng, &funcs);
     let vals = match &call {
-        Call::Func { args, .. } => args.vals(),
+        Call::Func { args, .. } | Call::Chain { args, .. } => args.vals(),
         _ => None,
     };
+    let _fresh_thread = rng.chance(1, 8);
     let r = run_pass(&call, &funcs, vals.as_ref(), &Pass::CONTROL);
     let mut passes = vec![Pass::CONTROL];
     if !r.panicked {
